@@ -3,7 +3,7 @@ operators of FramingOps.tla over every segmentation) and its non-vacuity run."""
 import json, os
 from vlib.core import Machinery
 
-LINE_MUTANTS = ["partial_at_refill", "split_on_cr", "drop_last", "dup", "claim_unlimited", "read_on_after_error", "drop_on_isprefix"]
+LINE_MUTANTS = ["partial_at_refill", "split_on_cr", "drop_last", "dup", "claim_unlimited", "read_on_after_error", "drop_on_isprefix", "isprefix_ignored"]
 FRAME_MUTANTS = ["lose_at_cut", "prefix_any", "hdr_eof_clean"]
 
 
